@@ -28,6 +28,7 @@ type prop struct {
 	Kind    string // create-client, upgrade-client, toggle-client, register-relayer, register-coin, ..., param-change
 	Sub     string // client type of the carried client state / parameter subspace / token kind
 	Desc    string // short canonical description (shape, twists, target)
+	Chain   string // target chain name of a client proposal
 }
 
 var chainPool = []string{"chain-a", "chain-b", "chain-c", "chain-d", "chain-e", "chain-f"}
@@ -137,7 +138,7 @@ func (h *hist) genClientProposal(focus string) prop {
 		ctype := clientTypes[rng.Intn(len(clientTypes))]
 		cs, cons, tw := genClient(rng, ctype, rng.Intn(100) < 75)
 		consT := ctype
-		if rng.Intn(100) < 30 {
+		if rng.Intn(100) < 12 {
 			consT = otherType(rng, ctype)
 			cons = consOfType(rng, consT)
 		}
@@ -145,7 +146,7 @@ func (h *hist) genClientProposal(focus string) prop {
 		if err != nil {
 			return prop{Kind: "create-client", Sub: ctype, Desc: "unpackable: " + err.Error()}
 		}
-		return prop{Content: c, Kind: "create-client", Sub: ctype, Desc: fmt.Sprintf("chain=%s cons=%s twists=%v existing=%q", name, consT, tw, h.clientType(name))}
+		return prop{Content: c, Kind: "create-client", Sub: ctype, Chain: name, Desc: fmt.Sprintf("chain=%s cons=%s twists=%v existing=%q", name, consT, tw, h.clientType(name))}
 	case w < 60:
 		name := h.pickChain(true, focus)
 		stored := h.clientType(name)
@@ -155,7 +156,7 @@ func (h *hist) genClientProposal(focus string) prop {
 		}
 		cs, cons, tw := genClient(rng, ctype, rng.Intn(100) < 75)
 		consT := ctype
-		if rng.Intn(100) < 25 {
+		if rng.Intn(100) < 12 {
 			consT = otherType(rng, ctype)
 			cons = consOfType(rng, consT)
 		}
@@ -163,29 +164,59 @@ func (h *hist) genClientProposal(focus string) prop {
 		if err != nil {
 			return prop{Kind: "upgrade-client", Sub: ctype, Desc: "unpackable: " + err.Error()}
 		}
-		return prop{Content: c, Kind: "upgrade-client", Sub: ctype, Desc: fmt.Sprintf("chain=%s cons=%s twists=%v stored=%q", name, consT, tw, stored)}
+		return prop{Content: c, Kind: "upgrade-client", Sub: ctype, Chain: name, Desc: fmt.Sprintf("chain=%s cons=%s twists=%v stored=%q", name, consT, tw, stored)}
 	}
-	// toggle: the stored client's Initialize runs on the new consensus state
+	// toggle: the STORED client's Initialize runs on the new consensus state, at submission (dry run) on
+	// the state of then and at execution on the state of then: when another accepted proposal is going to
+	// change the chain's client before this one executes, aim part of the toggles at that future state
 	name := h.pickChain(true, focus)
 	stored := h.clientType(name)
+	fut := h.futureType(name)
 	ctype := clientTypes[rng.Intn(len(clientTypes))]
 	if stored != "" && rng.Intn(100) < 88 {
 		ctype = otherType(rng, stored)
 	}
-	cs, _, tw := genClient(rng, ctype, rng.Intn(100) < 75)
+	// whichever state's Initialize the keeper runs (the new one's, or - as it once did - the stored one's),
+	// it wants a consensus state of its own type
 	consT := stored
 	switch x := rng.Intn(100); {
-	case stored == "" || x < 25:
+	case stored == "" || x < 55:
 		consT = ctype
-	case x < 35:
+	case x < 63:
 		consT = clientTypes[rng.Intn(len(clientTypes))]
 	}
+	aim := ""
+	if fut != "" && fut != stored && rng.Intn(100) < 35 {
+		consT = fut
+		for try := 0; try < 8 && (ctype == fut || ctype == stored); try++ {
+			ctype = clientTypes[rng.Intn(len(clientTypes))]
+		}
+		aim = " aimed-at-future=" + fut
+	}
+	cs, _, tw := genClient(rng, ctype, rng.Intn(100) < 75)
 	cons := consOfType(rng, consT)
 	c, err := clienttypes.NewToggleClientProposal(title, descr, name, cs, cons)
 	if err != nil {
 		return prop{Kind: "toggle-client", Sub: ctype, Desc: "unpackable: " + err.Error()}
 	}
-	return prop{Content: c, Kind: "toggle-client", Sub: ctype, Desc: fmt.Sprintf("chain=%s cons=%s twists=%v stored=%q", name, consT, tw, stored)}
+	return prop{Content: c, Kind: "toggle-client", Sub: ctype, Chain: name, Desc: fmt.Sprintf("chain=%s cons=%s twists=%v stored=%q%s", name, consT, tw, stored, aim)}
+}
+
+// futureType is the client type the chain will have once the accepted,
+// not yet executed proposals have run (the carried type of the last pending
+// create/toggle; empty when none is pending).
+func (h *hist) futureType(name string) string {
+	var best uint64
+	out := ""
+	for id, pe := range h.pend {
+		if pe.P.Chain != name || (pe.P.Kind != "toggle-client" && pe.P.Kind != "create-client") {
+			continue
+		}
+		if out == "" || id > best {
+			best, out = id, pe.P.Sub
+		}
+	}
+	return out
 }
 
 // ---------------------------------------------------------------- aggregate proposals
